@@ -5,6 +5,8 @@ package main
 
 import (
 	"context"
+	"crypto/sha256"
+	"encoding/hex"
 	"encoding/json"
 	"flag"
 	"fmt"
@@ -12,6 +14,7 @@ import (
 	"io/fs"
 	stdlog "log"
 	"os"
+	"os/exec"
 	"path/filepath"
 	"sort"
 	"strings"
@@ -62,7 +65,57 @@ type Replay struct {
 	Applied    []Applied    `json:"applied_nonidentity_orders"`
 	Minimised  bool         `json:"minimised"`
 	FindingKey string       `json:"finding_key"`
+	History    *HistoryCase `json:"history_case,omitempty"`
 	Note       string       `json:"note,omitempty"`
+}
+
+// HistoryCase describes a process_history_dependence violation: the reference outputs of program
+// Index differ between a process that compiles it first and one that compiled Order before it.
+type HistoryCase struct {
+	Index   int    `json:"index"`
+	Order   []int  `json:"order"` // program indices compiled earlier in the same process, then Index
+	GenCfg  string `json:"gen"`
+	Fresh   string `json:"fresh_digest"`
+	History string `json:"history_digest"`
+}
+
+func replayHistory(rp *Replay) int {
+	hc := rp.History
+	if hc == nil {
+		fmt.Println("REPLAY: malformed file (no history case)")
+		return 2
+	}
+	// fresh digest from the current tree: a child process that compiles only the target
+	cmd := exec.Command(os.Args[0], "-mode", "refdigest", "-seed", fmt.Sprint(rp.MasterSeed), "-gen", hc.GenCfg, "-indices", fmt.Sprint(hc.Index))
+	outb, err := cmd.Output()
+	if err != nil {
+		fmt.Println("REPLAY: child process failed:", err)
+		return 2
+	}
+	var child struct {
+		RefDigests map[string]string `json:"ref_digests"`
+	}
+	if err := json.Unmarshal(outb, &child); err != nil {
+		fmt.Println("REPLAY: child output unreadable")
+		return 2
+	}
+	fresh := child.RefDigests[fmt.Sprint(hc.Index)]
+	var last string
+	for _, idx := range hc.Order {
+		p := programFor(rp.MasterSeed, idx, hc.GenCfg)
+		ref, err := computeReference(p)
+		if err != nil {
+			last = "error"
+			continue
+		}
+		last = refDigest(p, ref)
+	}
+	if last != fresh {
+		fmt.Printf("REPLAY: violation class=process_history_dependence: program %d compiles to %s in a fresh process but to %s after programs %v were compiled in the same process\n", hc.Index, fresh, last, hc.Order[:len(hc.Order)-1])
+		return 1
+	}
+	fmt.Println("REPLAY: no violation (same outputs with and without the earlier compilations)")
+	return 0
 }
 
 type Sample struct {
@@ -83,6 +136,21 @@ type WorkerResult struct {
 	LastIndex  int       `json:"last_index"`
 	WallS      float64   `json:"wall_s"`
 	DetLog     []string  `json:"det_log,omitempty"`
+	// RefDigests: program index -> digest of the reference outputs, as computed in this
+	// process after whatever it compiled before (cross-process history check)
+	RefDigests map[string]string `json:"ref_digests,omitempty"`
+}
+
+func refDigest(p *Program, ref Reference) string {
+	h := sha256.New()
+	for _, pkg := range p.Packages {
+		for _, f := range ref[pkg] {
+			fmt.Fprintf(h, "%s\x00%d\x00", f.Path, len(f.Desc))
+			h.Write(f.Desc)
+			h.Write([]byte(f.Text))
+		}
+	}
+	return hex.EncodeToString(h.Sum(nil))[:20]
 }
 
 func opsStrings(ops []Op) []string {
@@ -146,11 +214,13 @@ func main() {
 	file := flag.String("file", "", "replay file")
 	detlog := flag.Bool("detlog", false, "record a per-execution signature log (determinism self-test)")
 	replayDir := flag.String("replay-dir", "", "where to write replay files")
+	indices := flag.String("indices", "", "refdigest mode: comma-separated program indices, in execution order")
 	flag.Parse()
 
 	log.DefaultLogger = log.NewCallbackLogger(func(string, string, map[string]interface{}) {})
 	stdlog.SetOutput(io.Discard)
 
+	out2 := out
 	switch *mode {
 	case "worker":
 		res := runWorker(*seed, *worker, *workers, *execs, *maxProgs, *budget, *cfgName, *detlog, *replayDir)
@@ -163,6 +233,29 @@ func main() {
 		}
 	case "replay":
 		os.Exit(runReplay(*file))
+	case "refdigest":
+		// compute only the reference outputs of the listed program indices, in that order, in this
+		// process: the driver compares the digests with those obtained under other process histories
+		out := map[string]string{}
+		for _, tok := range strings.Split(*indices, ",") {
+			var idx int
+			if _, err := fmt.Sscan(tok, &idx); err != nil {
+				continue
+			}
+			p := programFor(*seed, idx, *cfgName)
+			ref, err := computeReference(p)
+			if err != nil {
+				out[fmt.Sprint(idx)] = "error"
+				continue
+			}
+			out[fmt.Sprint(idx)] = refDigest(p, ref)
+		}
+		b, _ := json.Marshal(map[string]interface{}{"ref_digests": out})
+		if *out2 == "" {
+			os.Stdout.Write(b)
+		} else {
+			_ = os.WriteFile(*out2, b, 0o644)
+		}
 	case "try":
 		// compile the files of a directory (-file) as one program and print outputs
 		p := programFromDir(*file)
@@ -192,7 +285,7 @@ func main() {
 
 func runWorker(master uint64, worker, workers, execs, maxProgs int, budget float64, cfgName string, detlog bool, replayDir string) *WorkerResult {
 	start := time.Now()
-	res := &WorkerResult{Worker: worker, Stats: newStats(), FirstIndex: -1}
+	res := &WorkerResult{Worker: worker, Stats: newStats(), FirstIndex: -1, RefDigests: map[string]string{}}
 	stats := res.Stats
 	sigs := map[uint64]bool{}
 	seenKeys := map[string]bool{}
@@ -217,6 +310,7 @@ func runWorker(master uint64, worker, workers, execs, maxProgs int, budget float
 		for k, v := range p.Features {
 			stats.Features[k] += v
 		}
+		res.RefDigests[fmt.Sprint(idx)] = refDigest(p, ref)
 		progSeed := simrt.Derive(master, 0xe0, uint64(idx))
 		for e := 0; e < execs; e++ {
 			if e%8 == 7 && time.Since(start).Seconds() > budget {
@@ -332,6 +426,9 @@ func runReplay(file string) int {
 	if err := json.Unmarshal(b, &rp); err != nil {
 		fmt.Fprintln(os.Stderr, "replay:", err)
 		return 2
+	}
+	if rp.Violation.Class == "process_history_dependence" {
+		return replayHistory(&rp)
 	}
 	p, err := rp.Program.ToProgram()
 	if err != nil {
